@@ -348,6 +348,18 @@ func Garbage(kind string, valid []byte, r *rand.Rand) []byte {
 		return b[:minInt(len(b), 6)]
 	case "zeros":
 		return make([]byte, 3)
+	case "paging-header":
+		// framed as a PAGING message (initiatingMessage, procedure code 24: what an emulator is tempted to skip while it waits
+		// for an answer), then breaking off: a value shorter than announced, a container that ends inside an IE, or nothing
+		switch r.Intn(3) {
+		case 0:
+			b := append([]byte{0x00, 0x18, 0x40, 0x7f}, make([]byte, 6+r.Intn(20))...)
+			r.Read(b[4:])
+			return b
+		case 1:
+			return []byte{0x00, 0x18, 0x40, 0x08, 0x00, 0x00, 0x03, 0x00, 0x73, 0x00, 0x20, 0x01}
+		}
+		return []byte{0x00, 0x18}
 	case "dl-nas-header", "unsolicited-header":
 		// the header of a message an AMF may send unsolicited at any time (the one an emulator is most tempted to skip while
 		// waiting for its answer), followed by a length beyond the data and noise: not a decodable PDU
@@ -407,7 +419,7 @@ func Garbage(kind string, valid []byte, r *rand.Rand) []byte {
 	}
 }
 
-var GarbageKinds = []string{"garbage:one-octet", "garbage:random32", "garbage:truncated-half", "garbage:choice3", "garbage:random2048", "garbage:bad-length", "garbage:zeros", "garbage:truncated-1", "garbage:random2047", "garbage:random8192", "garbage:other-type-truncated", "garbage:dl-nas-header", "garbage:unsolicited-header", "garbage:late-17s", "garbage:sctp-notification-shaped", "garbage:framed-damaged-interior"}
+var GarbageKinds = []string{"garbage:one-octet", "garbage:random32", "garbage:truncated-half", "garbage:choice3", "garbage:random2048", "garbage:bad-length", "garbage:zeros", "garbage:truncated-1", "garbage:random2047", "garbage:random8192", "garbage:other-type-truncated", "garbage:dl-nas-header", "garbage:unsolicited-header", "garbage:late-17s", "garbage:sctp-notification-shaped", "garbage:framed-damaged-interior", "garbage:paging-header"}
 
 func pick3(r *rand.Rand, xs ...string) string { return xs[r.Intn(len(xs))] }
 
